@@ -102,8 +102,9 @@ Definition check_C02_binary (c : bcase) : nat := check_with c prop_C02_bstep.
 (* ------------------------------------------------------------------------------------------ *)
 (* C20: the same history in two interpreters (checks on: in-process; checks off: child started with
    BIGTREE_CONF_ASSERTIONS="").  Both traces are compared with the model under the corresponding
-   setting of the switch; the property fails when every operation is accepted with the checks on
-   and the two implementation traces differ. *)
+   setting of the switch; the property fails when no operation of the history is rejected by one of
+   the checks (hook failures allowed: they are the same user-level event in both interpreters) and the
+   two implementation traces differ. *)
 
 Definition links_eqb (a b : blinks) : bool :=
   bsame_links (state_of a) (state_of b)
@@ -132,6 +133,12 @@ Definition check_C20_binary (c : bcase) : nat :=
                              || negb (agree_trace off sm_off (bb_ops b) (bb_off b))) live) F_DISAGREE
   + flag (negb (bc_lib c)
           || negb (links_eqb (bc_pre c) (bc_pre_off c))
+          (* every operation accepted with the checks on ... *)
           || existsb (fun b => all_accepted (bb_on b) && negb (traces_eqb (bb_on b) (bb_off b)))
-                     (bc_branches c)) F_PROPFAIL
+                     (bc_branches c)
+          (* ... or, more generally, no operation rejected by a type/loop CHECK (the model under
+             `assertions := false` answers Unmodelled exactly there): hook failures and the refusals that are
+             not under the switch (full parent, wrong length, wrong container) are user- / data-level and must
+             leave the same links in both interpreters *)
+          || existsb (fun b => negb (traces_eqb (bb_on b) (bb_off b))) live) F_PROPFAIL
   + flag (Nat.ltb (length live) (length (bc_branches c))) F_SKIP.
